@@ -352,11 +352,14 @@ func (p *Protocol) SendMessageAndWaitTimeout(
 	timeout time.Duration,
 ) (bool, error) {
 	deliveryChan := make(chan error, 1)
-	if err := p.enqueueMessage(msg, deliveryChan); err != nil {
-		return false, err
-	}
 	timer := time.NewTimer(timeout)
 	defer timer.Stop()
+	// The time limit covers queueing as well: the send queue may be full of
+	// messages that cannot leave while the peer has agency
+	queued, err := p.enqueueMessageUntil(msg, deliveryChan, timer.C)
+	if err != nil || !queued {
+		return false, err
+	}
 	select {
 	case err := <-deliveryChan:
 		return err == nil, nil
@@ -394,18 +397,30 @@ func deliveryResultOrShutdown(deliveryChan <-chan error) error {
 }
 
 func (p *Protocol) enqueueMessage(msg Message, deliveryChan chan error) error {
+	_, err := p.enqueueMessageUntil(msg, deliveryChan, nil)
+	return err
+}
+
+// enqueueMessageUntil appends a message to the send queue. If the queue is
+// full it waits until there is room, the protocol shuts down, or giveUp fires
+// (a nil giveUp never does); in the last case it reports false and no error.
+func (p *Protocol) enqueueMessageUntil(
+	msg Message,
+	deliveryChan chan error,
+	giveUp <-chan time.Time,
+) (bool, error) {
 	// Immediately return if we're already shutting down
 	select {
 	case <-p.stopChan:
-		return ErrProtocolShuttingDown
+		return false, ErrProtocolShuttingDown
 	case <-p.doneChan:
-		return ErrProtocolShuttingDown
+		return false, ErrProtocolShuttingDown
 	case <-p.muxerDoneChan:
-		return ErrProtocolShuttingDown
+		return false, ErrProtocolShuttingDown
 	case <-p.recvDoneChan:
-		return ErrProtocolShuttingDown
+		return false, ErrProtocolShuttingDown
 	case <-p.sendDoneChan:
-		return ErrProtocolShuttingDown
+		return false, ErrProtocolShuttingDown
 	default:
 	}
 
@@ -417,7 +432,7 @@ func (p *Protocol) enqueueMessage(msg Message, deliveryChan chan error) error {
 		var err error
 		data, err = cbor.Encode(msg)
 		if err != nil {
-			return err
+			return false, err
 		}
 		// Cache the encoded CBOR data to avoid re-encoding in sendLoop
 		msg.SetCbor(data)
@@ -433,7 +448,7 @@ func (p *Protocol) enqueueMessage(msg Message, deliveryChan chan error) error {
 	if limit > 0 && p.pendingSendBytes+msgLen > limit {
 		p.pendingBytesMu.Unlock()
 		p.SendError(ErrProtocolViolationQueueExceeded)
-		return ErrProtocolViolationQueueExceeded
+		return false, ErrProtocolViolationQueueExceeded
 	}
 	p.pendingSendBytes += msgLen
 	p.pendingBytesMu.Unlock()
@@ -441,9 +456,12 @@ func (p *Protocol) enqueueMessage(msg Message, deliveryChan chan error) error {
 		message:      msg,
 		deliveryChan: deliveryChan,
 	}
+	var err error = ErrProtocolShuttingDown
 	select {
 	case p.sendQueueChan <- outbound:
-		return nil
+		return true, nil
+	case <-giveUp:
+		err = nil
 	case <-p.stopChan:
 	case <-p.doneChan:
 	case <-p.muxerDoneChan:
@@ -455,7 +473,7 @@ func (p *Protocol) enqueueMessage(msg Message, deliveryChan chan error) error {
 	p.pendingBytesMu.Lock()
 	p.pendingSendBytes -= msgLen
 	p.pendingBytesMu.Unlock()
-	return ErrProtocolShuttingDown
+	return false, err
 }
 
 // SendError sends an error to the handler in the Ouroboros object and stops the protocol.
